@@ -177,6 +177,25 @@ theorem retry_exhausted_witness :
     activeIds (runOps ⟨false, false, 5⟩ St.init [.keepr true 2 2 2, .flush]).1.hs = [0, 1] ∧
     (runOps ⟨false, false, 5⟩ St.init [.keepr true 2 2 2, .flush]).1.unit = [] := by decide
 
+/-! ### loop bodies / post routines that keep the pair -/
+
+/-- non-vacuity: a post routine that only applies gates (non-sequential request, two pairs, generic
+hardware: two live handles with distinct ids), a context block whose body measures in place, a
+sequential request of one pair kept alive on NV; afterwards a new qubit gets a fresh id -/
+example : good ⟨false, false, 5⟩ St.init
+    [.postk true 2 ⟨1, .none⟩, .ctx false 2 false ⟨0, .inplace⟩, .flush, .new, .gate2 0 4, .meas 1 false,
+     .flush, .close] = true := by decide
+example : (activeIds (runOps ⟨false, false, 5⟩ St.init
+    [.postk true 2 ⟨1, .none⟩, .ctx false 2 false ⟨0, .inplace⟩, .flush, .new]).1.hs = [0, 1, 2, 3, 4]) ∧
+    ((runOps ⟨false, false, 5⟩ St.init
+    [.postk true 2 ⟨1, .none⟩, .ctx false 2 false ⟨0, .inplace⟩, .flush]).1.unit.length = 4) := by decide
+example : good ⟨true, false, 4⟩ St.init
+    [.new, .seq false 1 ⟨2, .none⟩, .ctx true 1 false ⟨0, .inplace⟩, .flush, .meas 1 false, .flush] = true := by
+  decide
+/-- all pairs in ONE id and a body that keeps them: only one pair can ever arrive (why `good` asks
+for `n ≤ 1` there) -/
+example : (runOps ⟨false, false, 5⟩ St.init [.seq false 2 ⟨0, .none⟩, .flush]).2 = .fault .blocked := by decide
+
 /-! ### several connections alive in one process -/
 
 /-- **connections_independent**: whatever the interleaving of the operations of two connections
